@@ -29,13 +29,14 @@ namespace IstioModel.C15
 /-! ## the invariant holds initially -/
 
 theorem inv_empty : Inv ({} : Ctl) := by
-  refine ⟨?_, ?_, ?_, ?_, ?_, ?_⟩
+  refine ⟨?_, ?_, ?_, ?_, ?_, ?_, ?_⟩
   · intro sl hsl; cases hsl
   · intro h n eps he; simp [cacheEntry, alookup] at he
   · intro sl hsl; cases hsl
   · intro sv hsv; cases hsv
   · intro h sv hl; simp [alookup] at hl
   · intro h; simp [IdxOK, alookup]
+  · intro h per hl; simp [alookup] at hl
 
 /-! ## good steps -/
 
